@@ -1,4 +1,5 @@
 //! tarpc-verif <PROPERTY> <quick|thorough> [--replay <file>]
+mod codec;
 mod common;
 mod e2e;
 mod misc;
@@ -12,7 +13,9 @@ use std::time::Instant;
 
 fn main() {
     // keep stderr clean: panics inside polled tasks are caught and reported by the monitors
-    std::panic::set_hook(Box::new(|_| {}));
+    if std::env::var("VERIF_PANIC_VERBOSE").is_err() {
+        std::panic::set_hook(Box::new(|_| {}));
+    }
     let args: Vec<String> = std::env::args().collect();
     if args.len() < 3 {
         eprintln!("usage: tarpc-verif <C01..C20> <quick|thorough> | tarpc-verif <ID> --replay <file>");
